@@ -724,8 +724,44 @@ Fixpoint txt_loop (txts : list (list Z)) (data : list Z) (noff2 : Z) : outcome (
       txt_loop rest d2 (noff2 + 1 + n6_len t)
   end.
 
-(* DNSResourceRecord.encode 1118-1235: (bytes written, data, the record after FixLengths).
+(* the switch on rr.Type of DNSResourceRecord.encode 1130-1221: the RDATA written at noff+10.
    orig = true: the unchanged code's A/AAAA cases (copy of To4()/IP whatever their length). *)
+Definition rdata_encode (orig : bool) (r : rr) (d4 : list Z) (noff : Z) : outcome (list Z) :=
+  let t := r_type r in
+  if t =? T_A then
+    match to4 (r_ip r) with
+    | Some ip => wr_copy d4 (noff + 10) ip
+    | None => if orig then wr_copy d4 (noff + 10) [] else Err E_ENC
+    end
+  else if t =? T_AAAA then
+    if orig then wr_copy d4 (noff + 10) (r_ip r)
+    else match to16 (r_ip r) with Some ip => wr_copy d4 (noff + 10) ip | None => Err E_ENC end
+  else if t =? T_NS then do (_, d) <- enc_name (r_ns r) (rdata_meta r) d4 (noff + 10); Ok d
+  else if t =? T_CNAME then do (_, d) <- enc_name (r_cname r) (rdata_meta r) d4 (noff + 10); Ok d
+  else if t =? T_PTR then do (_, d) <- enc_name (r_ptr r) (rdata_meta r) d4 (noff + 10); Ok d
+  else if t =? T_SOA then
+    do (n1, da) <- enc_name (so_mname (r_soa r)) (rdata_meta r) d4 (noff + 10);
+    do (n2, db) <- enc_name (so_rname (r_soa r)) (rdata2_meta r) da (noff + 10 + n1);
+    let noff2 := noff + 10 + n1 + n2 in
+    do dc <- wr32 db noff2 (so_serial (r_soa r));
+    do dd <- wr32 dc (noff2 + 4) (so_refresh (r_soa r));
+    do de <- wr32 dd (noff2 + 8) (so_retry (r_soa r));
+    do df <- wr32 de (noff2 + 12) (so_expire (r_soa r));
+    wr32 df (noff2 + 16) (so_minimum (r_soa r))
+  else if t =? T_MX then
+    do da <- wr16 d4 (noff + 10) (mx_pref (r_mx r));
+    do (_, d) <- enc_name (mx_name (r_mx r)) (rdata_meta r) da (noff + 12); Ok d
+  else if t =? T_TXT then txt_loop (r_txts r) d4 (noff + 10)
+  else if t =? T_SRV then
+    do da <- wr16 d4 (noff + 10) (sv_prio (r_srv r));
+    do db <- wr16 da (noff + 12) (sv_weight (r_srv r));
+    do dc <- wr16 db (noff + 14) (sv_port (r_srv r));
+    do (_, d) <- enc_name (sv_name (r_srv r)) (rdata_meta r) dc (noff + 16); Ok d
+  else if (t =? T_URI) || (t =? T_NAPTR) || (t =? T_OPT) || (t =? T_RRSIG) || (t =? T_DNSKEY)
+          || (t =? T_SVCB) || (t =? T_HTTPS) then Err E_UNMODELLED
+  else Err E_UNSUPPORTED.
+
+(* DNSResourceRecord.encode 1118-1235: (bytes written, data, the record after FixLengths) *)
 Definition rr_encode_gen (orig : bool) (r : rr) (data : list Z) (offset : Z) (fix_ : bool)
   : outcome (Z * list Z * rr) :=
   do (nsz, d1) <- enc_name (r_name r) (owner_meta r) data offset;
@@ -733,40 +769,7 @@ Definition rr_encode_gen (orig : bool) (r : rr) (data : list Z) (offset : Z) (fi
   do d2 <- wr16 d1 noff (r_type r);
   do d3 <- wr16 d2 (noff + 2) (r_class r);
   do d4 <- wr32 d3 (noff + 4) (r_ttl r);
-  let t := r_type r in
-  do d5 <-
-    (if t =? T_A then
-       match to4 (r_ip r) with
-       | Some ip => wr_copy d4 (noff + 10) ip
-       | None => if orig then wr_copy d4 (noff + 10) [] else Err E_ENC
-       end
-     else if t =? T_AAAA then
-       if orig then wr_copy d4 (noff + 10) (r_ip r)
-       else match to16 (r_ip r) with Some ip => wr_copy d4 (noff + 10) ip | None => Err E_ENC end
-     else if t =? T_NS then do (_, d) <- enc_name (r_ns r) (rdata_meta r) d4 (noff + 10); Ok d
-     else if t =? T_CNAME then do (_, d) <- enc_name (r_cname r) (rdata_meta r) d4 (noff + 10); Ok d
-     else if t =? T_PTR then do (_, d) <- enc_name (r_ptr r) (rdata_meta r) d4 (noff + 10); Ok d
-     else if t =? T_SOA then
-       do (n1, da) <- enc_name (so_mname (r_soa r)) (rdata_meta r) d4 (noff + 10);
-       do (n2, db) <- enc_name (so_rname (r_soa r)) (rdata2_meta r) da (noff + 10 + n1);
-       let noff2 := noff + 10 + n1 + n2 in
-       do dc <- wr32 db noff2 (so_serial (r_soa r));
-       do dd <- wr32 dc (noff2 + 4) (so_refresh (r_soa r));
-       do de <- wr32 dd (noff2 + 8) (so_retry (r_soa r));
-       do df <- wr32 de (noff2 + 12) (so_expire (r_soa r));
-       wr32 df (noff2 + 16) (so_minimum (r_soa r))
-     else if t =? T_MX then
-       do da <- wr16 d4 (noff + 10) (mx_pref (r_mx r));
-       do (_, d) <- enc_name (mx_name (r_mx r)) (rdata_meta r) da (noff + 12); Ok d
-     else if t =? T_TXT then txt_loop (r_txts r) d4 (noff + 10)
-     else if t =? T_SRV then
-       do da <- wr16 d4 (noff + 10) (sv_prio (r_srv r));
-       do db <- wr16 da (noff + 12) (sv_weight (r_srv r));
-       do dc <- wr16 db (noff + 14) (sv_port (r_srv r));
-       do (_, d) <- enc_name (sv_name (r_srv r)) (rdata_meta r) dc (noff + 16); Ok d
-     else if (t =? T_URI) || (t =? T_NAPTR) || (t =? T_OPT) || (t =? T_RRSIG) || (t =? T_DNSKEY)
-             || (t =? T_SVCB) || (t =? T_HTTPS) then Err E_UNMODELLED
-     else Err E_UNSUPPORTED);
+  do d5 <- rdata_encode orig r d4 noff;
   do dsz <- rec_size r;
   do d6 <- wr16 d5 (noff + 8) (u16 dsz);
   Ok (nsz + 10 + dsz, d6, if fix_ then rr_set_dlen r (u16 dsz) else r).
